@@ -124,6 +124,45 @@ for how, q in copies:
             bad.append('%s: ordinary attribute %r is %r on the copy' % (how, n, q.__dict__.get(n, '<missing>')))
     if q.x != 2:
         bad.append('%s: x == %r on the copy' % (how, q.x))
+# ordinary attributes kept in __slots__, also when they currently hold None
+class Slotted(param.Parameterized):
+    __slots__ = ['cache', 'flag', 'never']
+    x = param.Number(1)
+    def __init__(self, **kw):
+        super().__init__(**kw)
+        self.cache = None
+        self.flag = 0
+__main__.Slotted = Slotted
+s_ = Slotted(x=3)
+for how, q in [('deepcopy', copy.deepcopy(s_))] + [('pickle protocol %d' % k, pickle.loads(pickle.dumps(s_, k))) for k in range(pickle.HIGHEST_PROTOCOL + 1)]:
+    for slot, want in (('cache', None), ('flag', 0)):
+        try:
+            got = getattr(q, slot)
+        except AttributeError:
+            bad.append('%s: slot %r (holding %r on the original) is unassigned on the copy' % (how, slot, want)); continue
+        if got != want or type(got) is not type(want):
+            bad.append('%s: slot %r is %r on the copy' % (how, slot, got))
+    if hasattr(q, 'never'):
+        bad.append('%s: a slot that was never assigned exists on the copy' % how)
+# a subclass that edits the state handed out by super().__getstate__() must not edit the object
+class Guarded(param.Parameterized):
+    x = param.Number(1)
+    def __init__(self, **kw):
+        super().__init__(**kw)
+        self.handle = ['not picklable in real life']
+        self.note = 'keep'
+    def __getstate__(self):
+        state = super().__getstate__()
+        del state['handle']
+        state['note'] = 'saved'
+        return state
+__main__.Guarded = Guarded
+g = Guarded(x=2)
+for how, mk in [('deepcopy', lambda: copy.deepcopy(g))] + [('pickle protocol %d' % k, (lambda k=k: pickle.loads(pickle.dumps(g, k)))) for k in range(pickle.HIGHEST_PROTOCOL + 1)]:
+    mk()
+    if 'handle' not in g.__dict__ or g.__dict__.get('note') != 'keep':
+        bad.append('%s: copying changed the ORIGINAL (handle present: %r, note: %r)' % (how, 'handle' in g.__dict__, g.__dict__.get('note')))
+        g.__dict__['handle'] = ['restored']; g.__dict__['note'] = 'keep'
 if bad:
     print('REPRODUCED: C17 an ordinary attribute does not survive the copy:')
     for b in bad[:8]:
@@ -227,3 +266,44 @@ _c17_base = contracts
 
 def contracts():
     return _c17_base() + [setstate_tail_contract()]
+
+
+def getstate_fresh_contract():
+    """`Parameterized.__getstate__` hands out a NEW mapping (subclasses edit what `super().__getstate__()`
+    returns: removing an unpicklable entry there must not remove the attribute from the object)."""
+    import z3
+    from pyvc.engine import Raise
+    from pyvc.values import Ref
+    from pyvc.verify import FunctionContract
+
+    def configure(I):
+        def occupied(I, st, fv, args, kwargs, ctx):
+            return [(st, I.make_list(st, []))]
+        I.contracts["get_occupied_slots"] = occupied
+
+    def setup(I, st):
+        U = I.U
+        obj = I.alloc_obj(st, "Parameterized", lazy=True, label="self")
+        import z3 as _z3
+        from pyvc import values as vm
+        d = I.alloc_dict(st, keys=U.fresh_seq("attribute_names"), vals=_z3.Const("attribute_values", _z3.ArraySort(vm.V, vm.V)))
+        st.heap[obj.oid].fields["__dict__"] = d
+        fv = I.bound_method(obj, I.src.find_method("Parameterized", "__getstate__"))
+        return fv, [], {}, {"d": d, "keys0": st.heap[d.oid].keys, "vals0": st.heap[d.oid].vals, "symbols": {}}
+
+    def post(I, info, st, oc):
+        if isinstance(oc, Raise):
+            return [("does-not-raise", z3.BoolVal(False))]
+        h = st.heap[info["d"].oid]
+        return [("the state handed out is a new mapping, not the object's own attribute dictionary",
+                 z3.BoolVal(isinstance(oc, Ref) and oc.oid != info["d"].oid)),
+                ("the object's attribute dictionary is untouched", z3.And(h.keys == info["keys0"], h.vals == info["vals0"]))]
+    return FunctionContract("%s:Parameterized.__getstate__" % MOD, PROP, setup, post, configure=configure,
+                            name="Parameterized.__getstate__[fresh mapping]")
+
+
+_c17_base2 = contracts
+
+
+def contracts():
+    return _c17_base2() + [getstate_fresh_contract()]
